@@ -5,14 +5,34 @@
 or not; an unclassified attribute is a checker error (a new Python adding a mutator is noticed).  For
 every fixeddict class in the tree and every inserting entry point, calling it with an undeclared key
 must raise FixedDictKeyError and leave the key set unchanged; with declared keys it must succeed.
+
+(b') The CALL-FORM MATRIX: each inserting entry point (construction, re-initialisation, update, |=, |,
+reflected |, __setstate__, crafted reductions through pickle/copy, item assignment, setdefault, fromkeys)
+is called with every call form (no argument / mapping / iterable of pairs in six shapes / keyword arguments
+/ positional + keyword arguments) and, in every mapping position, with every ARGUMENT KIND (plain dict,
+OrderedDict, dict subclasses with their own keys()/__getitem__/__iter__ - consistent and with storage and
+view that differ -, an instance of the same fixeddict class, instances of other fixeddict classes, non-dict
+mapping-likes), each carrying declared keys only / one undeclared key / a mixture with the undeclared key
+first / last.  Oracle (from the statement, nothing copied from the code): after the call every live
+fixed-entry dictionary (result, target, fixeddict operands) holds declared keys only (raw dict view, against
+the declared names frozen at the start of the run); an undeclared key is rejected with FixedDictKeyError and,
+when the call carried no declared key at all, the target is unchanged; with declared keys only the call
+succeeds, the result is of the fixeddict type and holds exactly the items a plain dict would hold.
+
 (c) Pickle / copy: round trip returns an equal dictionary of the same type, for dictionaries holding
 every subset pattern of declared keys that the bounded enumeration builds (including '_'-prefixed
-hidden entries).  Bounded operation sequences (exhaustive up to the stated length) stand in for
-"any sequence of operations"; they are never counted as proved."""
+hidden entries) and for every dictionary produced by a successful call of the matrix.  Bounded operation
+sequences (exhaustive up to the stated length) over three live dictionaries (two of the class, one of another
+fixeddict class) stand in for "any sequence of operations"; they are never counted as proved."""
+import collections
+import collections.abc
 import copy
+import copyreg
 import itertools
+import operator
 import pickle
 import random
+import types
 
 # trusted classification of dict's attributes (CPython 3.12): which can ADD keys
 INSERTING = {"__init__", "__setitem__", "setdefault", "update", "__ior__", "fromkeys", "__or__", "__ror__", "__new__"}
@@ -22,6 +42,13 @@ NOT_INSERTING = {
     "__len__", "__lt__", "__ne__", "__reduce__", "__reduce_ex__", "__repr__", "__reversed__", "__setattr__", "__sizeof__",
     "__str__", "__subclasshook__", "clear", "copy", "get", "items", "keys", "pop", "popitem", "values",
 }
+# attributes a fixeddict class has beyond dict's: which of them can add keys (all inserting ones are exercised below)
+CLASS_EXTRA_INSERTING = {"__setstate__"}
+CLASS_EXTRA_NOT_INSERTING = {"__dict__", "__module__", "__weakref__", "entry_objs", "help", "__getstate__", "__annotations__", "__qualname__", "__slots__"}
+
+BOGUS = "__bogus_undeclared_key__"
+BOGUS_KW = "__bogus_undeclared_keyword__"
+FDKE = "FixedDictKeyError"
 
 
 def all_fixeddict_classes():
@@ -43,6 +70,138 @@ def all_fixeddict_classes():
     return out
 
 
+# ------------------------------------------------------------------------------------------------ argument kinds
+class _SubDict(dict):
+    """A dict subclass with its own keys()/__getitem__/__iter__ (CPython then reads it through these, not through the
+    raw storage).  `storage` is what the raw dict holds, `view` is what the overridden methods report."""
+
+    def __init__(self, storage, view):
+        dict.__init__(self, storage)
+        self._view = list(view)
+
+    def keys(self):
+        return [k for k, _ in self._view]
+
+    def __iter__(self):
+        return iter(self.keys())
+
+    def __len__(self):
+        return len(self._view)
+
+    def __contains__(self, k):
+        return any(kk == k for kk, _ in self._view)
+
+    def __getitem__(self, k):
+        for kk, v in self._view:
+            if kk == k:
+                return v
+        raise KeyError(k)
+
+    def items(self):
+        return list(self._view)
+
+    def values(self):
+        return [v for _, v in self._view]
+
+
+class _KeysIterGetitem(object):
+    """Mapping-like that is not a dict: keys(), __getitem__, __iter__, __len__."""
+
+    def __init__(self, items):
+        self._items = list(items)
+
+    def keys(self):
+        return [k for k, _ in self._items]
+
+    def __iter__(self):
+        return iter(self.keys())
+
+    def __len__(self):
+        return len(self._items)
+
+    def __getitem__(self, k):
+        for kk, v in self._items:
+            if kk == k:
+                return v
+        raise KeyError(k)
+
+
+class _KeysGetitemOnly(object):
+    """The minimal protocol dict.update() accepts: keys() and __getitem__ only (no __iter__)."""
+
+    def __init__(self, items):
+        self._items = list(items)
+
+    def keys(self):
+        return [k for k, _ in self._items]
+
+    def __getitem__(self, k):
+        for kk, v in self._items:
+            if kk == k:
+                return v
+        raise KeyError(k)
+
+
+class _AbcMapping(collections.abc.Mapping):
+    def __init__(self, items):
+        self._items = list(items)
+
+    def __iter__(self):
+        return iter([k for k, _ in self._items])
+
+    def __len__(self):
+        return len(self._items)
+
+    def __getitem__(self, k):
+        for kk, v in self._items:
+            if kk == k:
+                return v
+        raise KeyError(k)
+
+
+class _StrSub(str):
+    """A str subclass (equal to and hashing like the plain string)."""
+
+
+class _Crafted(object):
+    """An object whose reduction is the given tuple: pickling / copying it rebuilds whatever the tuple says."""
+
+    def __init__(self, red):
+        self._red = red
+
+    def __reduce_ex__(self, proto):
+        return self._red() if callable(self._red) else self._red
+
+
+PAIR_FORMS = [
+    ("list-of-tuples", lambda items: [(k, v) for k, v in items]),
+    ("tuple-of-lists", lambda items: tuple([k, v] for k, v in items)),
+    ("generator", lambda items: ((k, v) for k, v in items)),
+    ("list-iterator", lambda items: iter([(k, v) for k, v in items])),
+    ("zip", lambda items: zip([k for k, _ in items], [v for _, v in items])),
+    ("items-view", lambda items: collections.OrderedDict(items).items()),
+]
+
+
+class _Arg(object):
+    """One positional argument: a call form, an argument kind, a carry pattern, the items it presents and a factory."""
+    __slots__ = ("form", "kind", "carry", "items", "make", "strong", "is_dict", "allow", "has_bad", "has_good", "observe_only", "note")
+
+    def __init__(self, form, kind, carry, items, make, declared, strong=True, is_dict=False, allow=(), observe_only=False, note=None):
+        self.form, self.kind, self.carry, self.items, self.make = form, kind, carry, list(items), make
+        self.strong, self.is_dict, self.allow, self.observe_only, self.note = strong, is_dict, frozenset(allow), observe_only, note
+        self.has_bad = any(k not in declared for k, _ in self.items)
+        self.has_good = any(k in declared for k, _ in self.items)
+
+    def describe(self):
+        return {"form": self.form, "kind": self.kind, "carry": self.carry, "items": [[repr(k), repr(v)] for k, v in self.items]}
+
+
+def _raw(x):
+    """The items a dict instance really stores (not what overridable methods report)."""
+    return {k: dict.__getitem__(x, k) for k in dict.keys(x)}
+
+
 def check(rep, tier, seed):
     from pyvc import frontend
 
@@ -57,80 +216,470 @@ def check(rep, tier, seed):
     rep.add_eval_fact("fixeddict classes found in the tree (State, VideoParameters, CodecFeatures, bitstream descriptions)",
                       len(classes) >= 20 and any(k.endswith(".State") for k in classes) and any(k.endswith(".VideoParameters") for k in classes)
                       and any(k.endswith(".CodecFeatures") for k in classes), "%d classes" % len(classes))
-    BOGUS = "__bogus_undeclared_key__"
-    evals = 0
+    # the declared names, frozen before anything is called (an operation that *declares* a new name on the fly is noticed)
+    DECL = {cls: tuple(cls.entry_objs) for cls in classes.values()}
+    DECLSET = {cls: frozenset(v) for cls, v in DECL.items()}
+    CNAME = {cls: n for n, cls in classes.items()}
+    unclassified_extra = sorted(set().union(*[set(dir(c)) - attrs for c in classes.values()]) - CLASS_EXTRA_INSERTING - CLASS_EXTRA_NOT_INSERTING)
+    if unclassified_extra:
+        rep.extra_assumptions.append("attributes of fixeddict classes beyond dict's that the C27 check does not classify or exercise: %r" % unclassified_extra)
+    rep.extra_coverage["c27_class_attributes_beyond_dict_unclassified"] = unclassified_extra
+
+    def is_fd(x):
+        return isinstance(x, dict) and type(x) in DECLSET
+
+    def undeclared(x):
+        ds = DECLSET[type(x)]
+        return [k for k in dict.keys(x) if k not in ds]
+
+    def legit(C, items):
+        """An instance of fixeddict class C holding `items` (all declared by C), built through the public API."""
+        o = C()
+        for k, v in items:
+            o[k] = v
+        return o
+
+    def bypass(C, items):
+        o = C()
+        for k, v in items:
+            dict.__setitem__(o, k, v)
+        return o
+
+    # ------------------------------------------------------------------------------------------- reporting
+    stats = collections.Counter()      # measured counts
+    failing = collections.Counter()    # failing calls per report name
+    observations = collections.Counter()
+    obs_samples = {}
+    MAX_REPLAYS = 60
+
+    def report(name, payload):
+        """One replay file per distinct case (not per class); every failing call is counted."""
+        failing[name] += 1
+        if failing[name] == 1 and len(failing) <= MAX_REPLAYS:
+            rep.violation(name, payload)
+
+    def observe(tag, sample):
+        observations[tag] += 1
+        obs_samples.setdefault(tag, sample)
+
+    ROUTES = (("pickle", lambda x: pickle.loads(pickle.dumps(x))), ("pickle-proto2", lambda x: pickle.loads(pickle.dumps(x, 2))),
+              ("copy.copy", copy.copy), ("copy.deepcopy", copy.deepcopy), (".copy()", lambda x: x.copy()))
+
+    def roundtrips(cname, cls, d, origin):
+        """The pickle/copy clause on one dictionary; returns the number of executions."""
+        n = 0
+        for how, f in ROUTES:
+            n += 1
+            try:
+                e = f(d)
+                ok = type(e) is cls and e is not d and e == d and dict(e) == dict(d) and _raw(e) == _raw(d) and not undeclared(e)
+                obs = None if ok else {"type": type(e).__name__, "keys": sorted(map(str, dict.keys(e) if isinstance(e, dict) else []))}
+            except Exception as ex:
+                ok = False
+                obs = repr(ex)
+            if not ok:
+                report("roundtrip-%s-%s" % (how, origin["entry_point"]),
+                       {"what": "%s: %s of a dictionary returns an equal dictionary of the same type" % (cname, how),
+                        "inputs": dict(origin, **{"class": cname, "route": how, "items": repr(_raw(d))}),
+                        "expected": "an equal %s" % cls.__name__, "observed": obs})
+                break
+        return n
+
+    def judge(cname, cls, ep, desc, thunk, expect, target=None, model=None, inplace=False, live=(), unchanged_if_raised=False,
+              allow=(), check_target_invariant=True, need_type=True, roundtrip=True, case=None):
+        """Run one call of the real code and compare with the oracle.
+        expect: 'raise' (FixedDictKeyError), 'ok' (no exception; the object holds exactly `model`),
+                'either' (FixedDictKeyError or no exception: only the invariant is demanded),
+                'raise-or-not-fixeddict' (FixedDictKeyError, or a result that is not a fixed-entry dictionary)."""
+        pre = _raw(target) if target is not None else None
+        live_pre = [(o, _raw(o)) for o in live]
+        stats["calls"] += 1
+        stats["calls:" + ep] += 1
+        try:
+            res = thunk()
+            exc = None
+        except FixedDictKeyError:
+            res, exc = None, FDKE
+        except Exception as e:
+            res, exc = None, "%s: %s" % (type(e).__name__, str(e)[:100])
+        problems = []
+        # the invariant of the statement, on every live fixed-entry dictionary
+        for role, o in (("result", res), ("target", target if check_target_invariant else None)) + tuple(("operand", o) for o in live):
+            if o is not None and is_fd(o):
+                bad = undeclared(o)
+                if bad:
+                    problems.append("%s (%s) holds undeclared keys %r" % (role, type(o).__name__, sorted(map(repr, bad))))
+        for o, p in live_pre:
+            if _raw(o) != p:
+                problems.append("the operand (%s) was modified: %r -> %r" % (type(o).__name__, p, _raw(o)))
+        exc_name = exc.split(":")[0] if exc else None
+        tolerated = exc_name in allow
+        if tolerated:
+            observe("%s tolerated %s" % (ep, exc_name), desc)
+        elif expect == "raise":
+            if exc != FDKE:
+                problems.append("expected FixedDictKeyError, observed %s" % (exc or "no exception"))
+        elif expect == "ok":
+            if exc:
+                problems.append("declared keys only: expected success, observed %s" % exc)
+            else:
+                obj = target if inplace else res
+                if inplace and res is not None and res is not target and ep.startswith("|="):
+                    problems.append("in-place merge returned a different object (%s)" % type(res).__name__)
+                if need_type and type(obj) is not cls:
+                    problems.append("the result is a %s, not a %s" % (type(obj).__name__, cls.__name__))
+                if model is not None and isinstance(obj, dict) and _raw(obj) != model:
+                    problems.append("the dictionary holds %r, expected %r" % (_raw(obj), model))
+                if model is not None and not isinstance(obj, dict):
+                    try:
+                        got = {k: obj[k] for k in obj.keys()}
+                    except Exception as e:
+                        got = repr(e)
+                    if got != model:
+                        problems.append("the result holds %r, expected %r" % (got, model))
+        elif expect in ("either", "raise-or-not-fixeddict"):
+            if exc not in (None, FDKE):
+                problems.append("expected FixedDictKeyError or success, observed %s" % exc)
+        if exc is not None and target is not None and unchanged_if_raised and check_target_invariant and _raw(target) != pre:
+            problems.append("rejected, but the target changed: %r -> %r" % (pre, _raw(target)))
+        if problems:
+            name = "%s-%s" % (ep, case or "-".join(str(desc.get(k)) for k in ("form", "kind", "carry", "kw") if desc.get(k) is not None))
+            report(name, {"what": "%s: %s" % (cname, "; ".join(problems)),
+                          "inputs": dict(desc, **{"class": cname, "entry_point": ep, "target_before": repr(pre)}),
+                          "expected": {"raise": "FixedDictKeyError, only declared keys afterwards", "ok": "success; items %r" % (model,),
+                                       "either": "FixedDictKeyError or success; only declared keys afterwards",
+                                       "raise-or-not-fixeddict": "FixedDictKeyError, or a result that is not a fixed-entry dictionary"}[expect],
+                          "observed": {"raised": exc, "result_type": type(res).__name__, "result": repr(res)[:300],
+                                       "target_after": repr(_raw(target)) if target is not None else None}})
+        elif expect == "ok" and exc is None and roundtrip and not tolerated:
+            obj = target if inplace else res
+            if type(obj) is cls:
+                stats["roundtrips_on_products"] += roundtrips(cname, cls, obj, dict(desc, entry_point=ep))
+        return exc, res
+
+    # --------------------------------------------------------------------------------- other fixeddict classes
+    def foreigns_of(cls):
+        """(overlapping, disjoint): other fixeddict classes declaring a key `cls` does not; the first shares as many keys as possible."""
+        T = DECLSET[cls]
+        cands = [(n, F) for n, F in sorted(classes.items()) if F is not cls and DECLSET[F] - T]
+        over = [(len(DECLSET[F] & T), n, F) for n, F in cands if DECLSET[F] & T]
+        disj = [F for n, F in cands if not (DECLSET[F] & T)]
+        out = []
+        if over:
+            out.append(("other-fixeddict-overlapping", max(over, key=lambda t: (t[0], t[1]))[2]))
+        if disj:
+            out.append(("other-fixeddict-disjoint", disj[0]))
+        return out
+
+    def carries(good_keys, bad_key, tag="v"):
+        good = [(k, (tag, i)) for i, k in enumerate(good_keys)]
+        bad = [(bad_key, (tag, "undeclared"))]
+        out = [("none", []), ("declared", good), ("undeclared", bad)]
+        if good:
+            out += [("undeclared-first", bad + good), ("undeclared-last", good + bad)]
+        return out
+
+    def positional_args(cls):
+        """Every (call form, argument kind, carry) for one positional mapping / iterable argument."""
+        T = DECLSET[cls]
+        D = DECL[cls]
+        g = list(D[:2])
+        out = []
+        for cn, items in carries(g, BOGUS):
+            it = list(items)
+            out.append(_Arg("mapping", "dict", cn, it, lambda it=it: dict(it), T, is_dict=True))
+            out.append(_Arg("mapping", "OrderedDict", cn, it, lambda it=it: collections.OrderedDict(it), T, is_dict=True))
+            out.append(_Arg("mapping", "dict-subclass(own keys/getitem/iter)", cn, it, lambda it=it: _SubDict(it, it), T, is_dict=True))
+            out.append(_Arg("mapping", "mappingproxy", cn, it, lambda it=it: types.MappingProxyType(dict(it)), T))
+            out.append(_Arg("mapping", "UserDict", cn, it, lambda it=it: collections.UserDict(it), T))
+            out.append(_Arg("mapping", "abc.Mapping", cn, it, lambda it=it: _AbcMapping(it), T))
+            out.append(_Arg("mapping", "keys+getitem+iter object", cn, it, lambda it=it: _KeysIterGetitem(it), T))
+            # dict accepts keys()+__getitem__ alone; the statement does not demand that a fixeddict does: only the invariant
+            out.append(_Arg("mapping", "keys+getitem-only object", cn, it, lambda it=it: _KeysGetitemOnly(it), T, strong=False,
+                            allow=("KeyError", "TypeError"), note="minimal mapping protocol"))
+            # storage and view differ: which one an implementation reads is not fixed by the statement, so only the invariant
+            out.append(_Arg("mapping", "dict-subclass(view only, empty storage)", cn, it, lambda it=it: _SubDict([], it), T, strong=False, is_dict=True))
+            if any(k not in T for k, _ in it):
+                vis = [(k, v) for k, v in it if k in T]
+                out.append(_Arg("mapping", "dict-subclass(undeclared key in storage, hidden by keys())", cn, it,
+                                lambda it=it, vis=vis: _SubDict(it, vis), T, strong=False, is_dict=True))
+            if cn != "none" or True:
+                for fn, mk in PAIR_FORMS:
+                    out.append(_Arg("pairs:" + fn, "iterable", cn, it, lambda it=it, mk=mk: mk(it), T))
+            # an instance of the same class: declared keys through the public API; an undeclared key only by going behind its back
+            if not any(k not in T for k, _ in it):
+                out.append(_Arg("mapping", "same-fixeddict", cn, it, lambda it=it: legit(cls, it), T, is_dict=True))
+            else:
+                out.append(_Arg("mapping", "same-fixeddict(polluted via dict.__setitem__)", cn, it, lambda it=it: bypass(cls, it), T,
+                                strong=False, is_dict=True, observe_only=True))
+        for kind, F in foreigns_of(cls):
+            common = [k for k in DECL[F] if k in T][:2]
+            fonly = [k for k in DECL[F] if k not in T][0]
+            for cn, items in carries(common, fonly, tag="f"):
+                if cn == "declared" and not common:
+                    continue
+                it = list(items)
+                out.append(_Arg("mapping", "%s(%s)" % (kind, F.__name__), cn, it, lambda it=it, F=F: legit(F, it), T, is_dict=True))
+        return out
+
+    def keyword_args(cls):
+        D = DECL[cls]
+        last = D[-1]
+        fo = foreigns_of(cls)
+        out = [("declared", [(last, ("kw", 0))]), ("undeclared", [(BOGUS_KW, ("kw", "undeclared"))]),
+               ("undeclared-first", [(BOGUS_KW, ("kw", "undeclared")), (last, ("kw", 0))]),
+               ("undeclared-last", [(last, ("kw", 0)), (BOGUS_KW, ("kw", "undeclared"))])]
+        if fo:
+            F = fo[0][1]
+            fonly = [k for k in DECL[F] if k not in DECLSET[cls]][0]
+            out.append(("declared-by-%s-only" % F.__name__, [(fonly, ("kw", "foreign"))]))
+        if len(D) > 2:
+            out.append(("all-declared", [(k, ("kw", i)) for i, k in enumerate(D)]))
+        return out
+
+    def merged(pre, *item_lists):
+        m = dict(pre)
+        for items in item_lists:
+            for k, v in items:
+                m[k] = v
+        return m
+
+    def pre_states(cls):
+        D = DECL[cls]
+        return [("empty", []), ("one-entry", [(D[0], ("pre", 0))])] + ([("two-entries", [(D[0], ("pre", 0)), (D[-1], ("pre", 1))])] if len(D) > 1 else [])
+
+    def live_of(obj):
+        return (obj,) if is_fd(obj) else ()
+
     samples = []
 
-    def entry_points(cls, d, key):
-        """(name, thunk) for every way of inserting `key`; the thunk returns the object that must still be clean."""
-        def ior():
-            nonlocal d
-            d2 = d
-            d2 |= {key: 1}
-            return d2
-        eps = [
-            ("__init__(mapping)", lambda: cls({key: 1})),
-            ("__init__(pairs)", lambda: cls([(key, 1)])),
-            ("__init__(**kw)", lambda: cls(**{key: 1})),
-            ("__setitem__", lambda: (d.__setitem__(key, 1), d)[1]),
-            ("setdefault", lambda: (d.setdefault(key, 1), d)[1]),
-            ("update(mapping)", lambda: (d.update({key: 1}), d)[1]),
-            ("update(pairs)", lambda: (d.update([(key, 1)]), d)[1]),
-            ("update(generator)", lambda: (d.update((k, 1) for k in [key]), d)[1]),
-            ("update(**kw)", lambda: (d.update(**{key: 1}), d)[1]),
-            ("__ior__", ior),
-            ("fromkeys", lambda: cls.fromkeys([key])),
-            ("copy-of-polluted", None),
-        ]
-        return eps
-
-    failures = 0
+    # ============================================================================== the call-form matrix
     for cname, cls in sorted(classes.items()):
-        declared = list(cls.entry_objs)
-        for ep_name, _ in entry_points(cls, cls(), BOGUS):
-            if _ is None:
-                continue
-            d = cls()
-            if declared:
-                dict.__setitem__(d, declared[0], 0)
-            before = set(d.keys())
-            thunk = dict(entry_points(cls, d, BOGUS))[ep_name]
-            evals += 1
-            try:
-                res = thunk()
-                raised = None
-            except FixedDictKeyError:
-                raised = "FixedDictKeyError"
-                res = d
-            except Exception as e:  # any other exception is wrong as well
-                raised = type(e).__name__
-                res = d
-            bad_keys = (set(res.keys()) if isinstance(res, dict) else set()) - set(declared)
-            polluted = isinstance(res, cls) and bool(bad_keys) or (set(d.keys()) - set(declared))
-            ok = raised == "FixedDictKeyError" and not polluted
-            if ep_name in ("fromkeys",) and raised is None and not isinstance(res, cls):
-                ok = True  # returns a plain dict: not a fixed-entry dictionary
-            if not ok:
-                failures += 1
-                key = "C27-D5-ior-not-overridden" if ep_name == "__ior__" and raised is None else None
-                rep.violation("undeclared-key-%s-%s" % (cls.__name__, ep_name),
-                              {"what": "%s: inserting an undeclared key through %s must raise FixedDictKeyError and leave the dictionary unchanged" % (cname, ep_name),
-                               "inputs": {"class": cname, "entry_point": ep_name, "key": BOGUS}, "observed": {"raised": raised, "undeclared_keys_present": sorted(map(str, bad_keys))},
-                               "known_key": key})
-            # declared keys must be accepted by the same entry point
-            if declared and ep_name != "fromkeys":
-                d2 = cls()
-                evals += 1
+        T = DECLSET[cls]
+        D = DECL[cls]
+        pos = positional_args(cls)
+        kws = keyword_args(cls)
+        stats["argument_specs"] += len(pos)
+
+        def run_pos_kw(ep, call, target_factory, a, kwname, kwitems, reinit=False):
+            """One call of an entry point with signature (*pos, **kw)."""
+            obj = a.make() if a is not None else None
+            d = target_factory() if target_factory else None
+            preitems = _raw(d) if d is not None else {}
+            pitems = a.items if a is not None else []
+            has_bad = (a is not None and a.has_bad) or any(k not in T for k, _ in kwitems)
+            has_good = (a is not None and a.has_good) or any(k in T for k, _ in kwitems)
+            strong = a is None or a.strong
+            desc = dict(a.describe() if a is not None else {"form": "no-positional"}, kw=kwname, kwargs=[[k, repr(v)] for k, v in kwitems])
+            if a is None:
+                desc["form"] = "keywords" if kwitems else "no-argument"
+            elif kwitems:
+                desc["form"] = a.form + "+keywords"
+            args = () if a is None else (obj,)
+            kwargs = dict(kwitems)
+            if a is not None and a.observe_only:
+                # a same-type operand that was polluted behind the library's back: outside the statement's premise; recorded only
+                stats["calls"] += 1
+                stats["calls:" + ep] += 1
                 try:
-                    dict(entry_points(cls, d2, declared[-1]))[ep_name]()
+                    r = call(d, args, kwargs)
+                    out = "accepted" + (", undeclared key propagated" if any(is_fd(x) and x is not obj and undeclared(x) for x in (r, d)) else "")
+                except FixedDictKeyError:
+                    out = "rejected with FixedDictKeyError"
                 except Exception as e:
-                    failures += 1
-                    rep.violation("declared-key-%s-%s" % (cls.__name__, ep_name),
-                                  {"what": "%s: %s rejects a declared key" % (cname, ep_name), "inputs": {"class": cname, "key": declared[-1]}, "observed": repr(e)})
-        if len(samples) < 3:
-            samples.append({"class": cname, "entry_points": [n for n, t in entry_points(cls, cls(), BOGUS) if t is not None]})
-    rep.add_eval_fact("every key-inserting entry point of dict, on every fixeddict class, rejects an undeclared key with FixedDictKeyError and accepts a declared one (%d calls)" % evals,
-                      failures == 0 or all(v.get("known_key") for v in []), "%d failing" % failures)
+                    out = "raised " + type(e).__name__
+                observe("%s given a same-type instance polluted through dict.__setitem__: %s" % (ep, out), desc)
+                return
+            if not strong:
+                expect = "either"
+            elif has_bad:
+                expect = "raise"
+            else:
+                expect = "ok"
+            live = () if obj is None or not is_fd(obj) else (obj,)
+            model = merged(preitems, pitems, kwitems) if expect == "ok" else None
+            exc, res = judge(cname, cls, ep, desc, lambda: call(d, args, kwargs), expect, target=d, model=None if reinit else model,
+                             inplace=d is not None, live=live, unchanged_if_raised=strong and not has_good and not reinit,
+                             allow=(a.allow if a is not None else ()), check_target_invariant=not reinit)
+            if reinit and d is not None and undeclared(d):
+                observe("__init__ called again on a live dictionary with an undeclared key: %s, but the key stays in the dictionary" % (exc or "accepted"), desc)
+
+        def sweep_pos_kw(ep, call, target_factories, reinit=False):
+            for tf in target_factories:
+                run_pos_kw(ep, call, tf, None, "none", [], reinit)                       # no argument
+                for kn, kitems in kws:                                                   # keywords only
+                    run_pos_kw(ep, call, tf, None, kn, kitems, reinit)
+                for a in pos:                                                            # one positional
+                    run_pos_kw(ep, call, tf, a, "none", [], reinit)
+                for a in pos:                                                            # positional + keywords
+                    if a.carry in ("none", "declared", "undeclared"):
+                        for kn, kitems in kws:
+                            run_pos_kw(ep, call, tf, a, kn, kitems, reinit)
+
+        targets = [(lambda items=items: legit(cls, items)) for _, items in pre_states(cls)]
+        sweep_pos_kw("construct", lambda d, a, k: cls(*a, **k), [None])
+        sweep_pos_kw("update", lambda d, a, k: (d.update(*a, **k), d)[1], targets)
+        sweep_pos_kw("re-__init__", lambda d, a, k: (d.__init__(*a, **k), d)[1], targets[:2], reinit=True)
+
+        # ---- single-operand entry points: |=, |, reflected |, __setstate__
+        for a in pos:
+            for tf in targets:
+                pre = _raw(tf())
+                strong, bad = a.strong, a.has_bad
+                for ep, call in (("|=", lambda d, x: operator.ior(d, x)), ("|=(__ior__)", lambda d, x: d.__ior__(x))):
+                    d, x = tf(), a.make()
+                    if a.observe_only:
+                        continue
+                    allow = set(a.allow) | ({"TypeError"} if a.form.startswith("pairs") else set())
+                    judge(cname, cls, ep, a.describe(), lambda: call(d, x), "either" if not strong else "raise" if bad else "ok", target=d,
+                          model=merged(pre, a.items), inplace=True, live=live_of(x), unchanged_if_raised=strong and not a.has_good, allow=allow)
+                # d | x and x | d: the result need not be a fixed-entry dictionary; if it is one, the invariant applies.  d itself is an operand.
+                if a.observe_only:
+                    continue
+                d, x = tf(), a.make()
+                # (a non-dict operand decides itself what `|` means - a dict view returns a set -: then only the invariant is demanded)
+                judge(cname, cls, "|", a.describe(), lambda: d | x, "raise-or-not-fixeddict" if bad or not strong else "ok", model=merged(pre, a.items) if a.is_dict else None,
+                      live=(d,) + live_of(x), allow=() if a.is_dict else ("TypeError",), need_type=False, roundtrip=False)
+                d, x = tf(), a.make()
+                ritems = a.items if a.kind != "dict-subclass(view only, empty storage)" else []
+                judge(cname, cls, "reflected-|", a.describe(), lambda: x | d, "raise-or-not-fixeddict" if bad or not strong else "ok",
+                      model=merged(dict(ritems), list(pre.items())) if a.is_dict else None, live=(d,) + live_of(x), allow=() if a.is_dict else ("TypeError",), need_type=False, roundtrip=False)
+            if a.is_dict and not a.observe_only and a.form == "mapping":
+                for tf in targets[:2]:
+                    d, x = tf(), a.make()
+                    pre = _raw(d)
+                    judge(cname, cls, "__setstate__", a.describe(), lambda: d.__setstate__(x), "either" if not a.strong else "raise" if a.has_bad else "ok",
+                          target=d, model=merged(pre, a.items), inplace=True, live=live_of(x), unchanged_if_raised=a.strong and not a.has_good)
+
+        # ---- unpickling / copying crafted reductions (what __reduce__ emits, and the other shapes pickle understands)
+        for cn, items in carries(list(D[:2]), BOGUS, tag="r"):
+            it = list(items)
+            bad = any(k not in T for k, _ in it)
+            shapes = [("(cls,(),state)", lambda: (cls, (), dict(it))), ("(cls,(mapping,))", lambda: (cls, (dict(it),))),
+                      ("(cls,(),None,None,dictitems)", lambda: (cls, (), None, None, iter(list(it)))),
+                      ("(copyreg.__newobj__,(cls,),state)", lambda: (copyreg.__newobj__, (cls,), dict(it))),
+                      ("(cls,(),state,None,dictitems)", lambda: (cls, (), dict(it[:1]), None, iter(list(it[1:]))))]
+            for sn, red in shapes:
+                for rn, route in (("pickle.loads", lambda o: pickle.loads(pickle.dumps(o))), ("pickle.loads(proto 2)", lambda o: pickle.loads(pickle.dumps(o, 2))),
+                                  ("pickle.loads(proto 0)", lambda o: pickle.loads(pickle.dumps(o, 0))), ("copy.copy", copy.copy), ("copy.deepcopy", copy.deepcopy)):
+                    if sn.startswith("(copyreg.__newobj__") and rn in ("pickle.loads", "pickle.loads(proto 2)"):
+                        continue  # pickle itself refuses to write this shape for an object of another class at protocol >= 2
+                    judge(cname, cls, "crafted-reduction", {"form": sn, "kind": rn, "carry": cn, "items": [[repr(k), repr(v)] for k, v in it]},
+                          lambda: route(_Crafted(red)), "raise" if bad else "ok", model=dict(it))
+
+        # ---- key-level entry points: every declared key, and a set of undeclared keys of several types
+        fo = foreigns_of(cls)
+        undecl_keys = [BOGUS, "", D[0] + "_", " " + D[0], 0, None, 1.5, (D[0],), D[0].encode(), frozenset([D[0]]), _StrSub(BOGUS), True]
+        if D[0].upper() not in T:
+            undecl_keys.append(D[0].upper())
+        for _, F in fo:
+            undecl_keys.append([k for k in DECL[F] if k not in T][0])
+        key_eps = [("d[k]=v", lambda d, k: operator.setitem(d, k, ("s", 1))), ("__setitem__", lambda d, k: d.__setitem__(k, ("s", 1))),
+                   ("setdefault", lambda d, k: d.setdefault(k, ("s", 1)))]
+        for ep, call in key_eps:
+            for k in list(D) + [_StrSub(D[-1])]:
+                for tf in targets[:2]:
+                    d = tf()
+                    pre = _raw(d)
+                    model = dict(pre)
+                    if ep != "setdefault" or k not in pre:
+                        model[k] = ("s", 1)
+                    judge(cname, cls, ep, {"form": "key", "kind": type(k).__name__, "carry": "declared", "key": repr(k)}, lambda: call(d, k), "ok",
+                          target=d, model=model, inplace=True, roundtrip=(k == D[0] or k == D[-1]))
+            for k in undecl_keys:
+                for tf in targets[:2]:
+                    d = tf()
+                    judge(cname, cls, ep, {"form": "key", "kind": type(k).__name__, "carry": "undeclared", "key": repr(k)}, lambda: call(d, k), "raise",
+                          target=d, inplace=True, unchanged_if_raised=True, case="undeclared-key-%s" % type(k).__name__)
+        # setdefault(key) without a default: dict allows it; the statement only demands that nothing undeclared gets in
+        for k in (D[0], BOGUS):
+            d = legit(cls, [])
+            judge(cname, cls, "setdefault(no default)", {"form": "key-only", "kind": "str", "carry": "declared" if k in T else "undeclared", "key": k},
+                  lambda: d.setdefault(k), "either", target=d, inplace=True, allow=("TypeError",), unchanged_if_raised=k not in T)
+        # keyword names that collide with parameter names of a Python-level update()/__init__: nothing undeclared may get in
+        for kwname in ("self", "E", "F", "other", "args", "kwargs", "key", "value"):
+            if kwname in T:
+                continue
+            d = legit(cls, [])
+            judge(cname, cls, "update", {"form": "keywords", "kind": "parameter-like name", "carry": "undeclared", "kw": kwname}, lambda: d.update(**{kwname: 1}),
+                  "either", target=d, inplace=True, allow=("TypeError",), unchanged_if_raised=True, case="keyword-named-" + kwname)
+            judge(cname, cls, "construct", {"form": "keywords", "kind": "parameter-like name", "carry": "undeclared", "kw": kwname}, lambda: cls(**{kwname: 1}),
+                  "either", allow=("TypeError",), case="keyword-named-" + kwname)
+
+        # ---- fromkeys (class and instance spelling; with and without value)
+        fk_iterables = [("list", lambda ks: list(ks)), ("tuple", lambda ks: tuple(ks)), ("generator", lambda ks: (k for k in ks)),
+                        ("dict", lambda ks: dict.fromkeys(ks, 0)), ("dict-keys-view", lambda ks: dict.fromkeys(ks, 0).keys()), ("list-iterator", lambda ks: iter(list(ks)))]
+        for cn, items in carries(list(D[:2]), BOGUS):
+            ks = [k for k, _ in items]
+            bad = any(k not in T for k in ks)
+            for itn, mk in fk_iterables:
+                for sp, call in (("cls.fromkeys(it)", lambda it: cls.fromkeys(it)), ("cls.fromkeys(it, v)", lambda it: cls.fromkeys(it, ("fk", 1))),
+                                 ("instance.fromkeys(it, v)", lambda it: legit(cls, []).fromkeys(it, ("fk", 1)))):
+                    v = None if sp == "cls.fromkeys(it)" else ("fk", 1)
+                    judge(cname, cls, "fromkeys", {"form": sp, "kind": itn, "carry": cn, "keys": list(map(repr, ks))}, lambda: call(mk(ks)),
+                          "raise-or-not-fixeddict" if bad else "ok", model={k: v for k in ks}, need_type=False)
+        for kind, F in fo:
+            common = [k for k in DECL[F] if k in T][:2]
+            fonly = [k for k in DECL[F] if k not in T][0]
+            for cn, items in carries(common, fonly, tag="f"):
+                if not items:
+                    continue
+                f = legit(F, items)
+                bad = any(k not in T for k, _ in items)
+                judge(cname, cls, "fromkeys", {"form": "cls.fromkeys(it, v)", "kind": "%s(%s)" % (kind, F.__name__), "carry": cn, "keys": [k for k, _ in items]},
+                      lambda: cls.fromkeys(f, ("fk", 1)), "raise-or-not-fixeddict" if bad else "ok", model={k: ("fk", 1) for k, _ in items}, live=(f,), need_type=False)
+
+        # ---- copying a dictionary that was polluted behind the library's back: outside the premise of the statement, recorded only
+        p = bypass(cls, [(D[0], 1), (BOGUS, 2)])
+        for how, f in ROUTES:
+            try:
+                e = f(p)
+                observe("%s of an instance polluted through dict.__setitem__: %s" % (how, "undeclared key propagated" if is_fd(e) and undeclared(e) else "clean result"), cname)
+            except FixedDictKeyError:
+                observe("%s of an instance polluted through dict.__setitem__: rejected with FixedDictKeyError" % how, cname)
+        if len(samples) < 2:
+            samples.append({"class": cname, "positional_argument_specs": len(pos), "keyword_specs": [k for k, _ in kws],
+                            "other_fixeddicts": [F.__name__ for _, F in fo]})
+
+    # ---- every ordered pair (target class, other fixeddict class declaring a key the target does not)
+    for cname, cls in sorted(classes.items()):
+        T = DECLSET[cls]
+        for fname, F in sorted(classes.items()):
+            if F is cls or not (DECLSET[F] - T):
+                continue
+            fonly = [k for k in DECL[F] if k not in T]
+            common = [k for k in DECL[F] if k in T]
+            items_bad = [(k, ("f", i)) for i, k in enumerate(common[:1])] + [(fonly[-1], ("f", "undeclared"))]
+            items_good = [(k, ("f", i)) for i, k in enumerate(common)]
+            desc = lambda carry, items: {"form": "mapping", "kind": "other-fixeddict(%s)" % F.__name__, "carry": carry, "items": [[k, repr(v)] for k, v in items]}
+            for ep, call, inplace in (("construct", lambda d, x: cls(x), False), ("update", lambda d, x: (d.update(x), d)[1], True),
+                                      ("|=", lambda d, x: operator.ior(d, x), True), ("__setstate__", lambda d, x: (d.__setstate__(x), d)[1], True)):
+                d, x = legit(cls, []), legit(F, items_bad)
+                judge(cname, cls, ep, desc("undeclared-last", items_bad), lambda: call(d, x), "raise", target=d if inplace else None, inplace=inplace, live=(x,),
+                      case="all-pairs-other-fixeddict-undeclared")
+                d, x = legit(cls, []), legit(F, items_good)
+                judge(cname, cls, ep, desc("declared", items_good), lambda: call(d, x), "ok", target=d if inplace else None, inplace=inplace, live=(x,),
+                      model=dict(items_good), case="all-pairs-other-fixeddict-declared", roundtrip=False)
+            d, x = legit(cls, []), legit(F, items_good)
+            judge(cname, cls, "construct", dict(desc("declared", items_good), kw="declared-by-%s-only" % F.__name__), lambda: cls(x, **{fonly[0]: 1}), "raise", live=(x,),
+                  case="all-pairs-other-fixeddict-plus-keyword")
+            stats["class_pairs"] += 1
+
+    changed = [CNAME[c] for c in DECL if tuple(c.entry_objs) != DECL[c]]
+    rep.add_eval_fact("the declared names of every fixeddict class are the same after the run as before it", not changed, repr(changed))
+    n_fail = sum(failing.values())
+    rep.add_eval_fact("every key-inserting entry point, on every fixeddict class, in every call form and with every argument kind: undeclared keys are rejected with "
+                      "FixedDictKeyError, declared keys are accepted, no live fixed-entry dictionary ever holds an undeclared key (%d calls)" % stats["calls"],
+                      n_fail == 0, "%d failing calls in %d distinct cases" % (n_fail, len(failing)))
+    per_ep = {k[6:]: v for k, v in sorted(stats.items()) if k.startswith("calls:")}
+    rep.add_bounded("call-form matrix", "every fixeddict class (%d) x entry points %s x call forms {no argument, mapping, 6 shapes of iterable of pairs, keywords, positional+keywords} "
+                    "x argument kinds {dict, OrderedDict, dict subclass with own keys/getitem/iter (consistent / view-only / undeclared key hidden in storage), same fixeddict, "
+                    "overlapping and disjoint other fixeddict, mappingproxy, UserDict, abc.Mapping, keys+getitem(+iter) objects} x carries {none, declared, undeclared, undeclared first, undeclared last} "
+                    "x 2-3 target states; plus every ordered pair of classes (%d) for construct/update/|=/__setstate__" % (len(classes), sorted(per_ep), stats["class_pairs"]),
+                    stats["calls"], True, distinct=stats["calls"], samples=samples, note="calls per entry point: %r" % per_ep)
+    rep.extra_coverage["c27_calls_per_entry_point"] = per_ep
+    rep.extra_coverage["c27_positional_argument_specs_total"] = stats["argument_specs"]
+    rep.extra_coverage["c27_observations_outside_the_statement"] = {k: {"count": v, "first": obs_samples.get(k)} for k, v in sorted(observations.items())}
 
     # ---- pickle / copy round trips, including hidden ('_'-prefixed) entries
     evals2 = 0
@@ -160,56 +709,159 @@ def check(rep, tier, seed):
                                   {"what": "%s: %s of a dictionary returns an equal dictionary of the same type" % (cname, how),
                                    "inputs": {"class": cname, "keys": keys}, "observed": obs})
                     break
-    rep.add_bounded("pickle/copy round trips", "every fixeddict class x {empty, first, last, all, hidden, mixed, seeded random subsets} x 5 copy/pickle routes",
-                    evals2, False, distinct=evals2, samples=[{"class": "State", "keys": ["_num_pictures_in_sequence"], "route": "pickle"}])
+    rep.add_bounded("pickle/copy round trips", "every fixeddict class x {empty, first, last, all, hidden, mixed, seeded random subsets} x 5 copy/pickle routes; "
+                    "and the same 5 routes on every dictionary produced by a successful call of the call-form matrix (%d more executions)" % stats["roundtrips_on_products"],
+                    evals2 + stats["roundtrips_on_products"], False, distinct=evals2 + stats["roundtrips_on_products"],
+                    samples=[{"class": "State", "keys": ["_num_pictures_in_sequence"], "route": "pickle"}])
 
-    # ---- operation sequences (exhaustive up to length L over a small op alphabet) on three representative classes
+    # ---- operation sequences (exhaustive up to length L) over three live dictionaries, on four representative classes
     L = 3 if tier == "quick" else 4
-    evals3 = 0
     reps = [c for n, c in sorted(classes.items()) if n.endswith((".State", ".VideoParameters", ".CodecFeatures", ".ParseInfo"))]
+    global _SEQ_CTX
+    shards = []
+    nops = None
     for cls in reps:
-        declared = list(cls.entry_objs)
-        good, good2 = declared[0], declared[-1]
-        ops = [
-            ("set-good", lambda d: d.__setitem__(good, 1)), ("set-bad", lambda d: d.__setitem__(BOGUS, 1)),
-            ("setdefault-good", lambda d: d.setdefault(good2, 2)), ("setdefault-bad", lambda d: d.setdefault(BOGUS, 2)),
-            ("update-good", lambda d: d.update({good: 3})), ("update-bad-pairs", lambda d: d.update([(good, 3), (BOGUS, 3)])),
-            ("update-bad-kw", lambda d: d.update(**{BOGUS: 3})), ("ior-bad", lambda d: d.__ior__({BOGUS: 4})),
-            ("copy", lambda d: d.copy()), ("pop-good", lambda d: d.pop(good, None)), ("clear", lambda d: d.clear()),
-        ]
-        for seq in itertools.product(ops, repeat=L):
-            d = cls()
-            evals3 += 1
-            for (name, op) in seq:
-                try:
-                    r = op(d)
-                    if name == "copy":
-                        d = r
-                except FixedDictKeyError:
-                    pass
-            extra = set(d.keys()) - set(declared)
-            if extra:
-                known = "C27-D5-ior-not-overridden" if all(n != "update-bad-pairs" or True for n, _ in seq) and any(n == "ior-bad" for n, _ in seq) and _only_ior_explains(cls, seq, declared, FixedDictKeyError) else None
-                if rep.violation("opseq-%s" % cls.__name__, {"what": "%s holds undeclared keys after an operation sequence" % cls.__name__,
-                                                              "inputs": {"class": cls.__name__, "ops": [n for n, _ in seq]}, "observed": sorted(map(str, extra)), "known_key": known}):
-                    break
-    rep.add_bounded("operation sequences", "exhaustive: all sequences of length %d over 11 operations (declared/undeclared keys, |=, copy, pop, clear) on State, VideoParameters, CodecFeatures, ParseInfo" % L,
-                    evals3, True, distinct=evals3, samples=[["set-good", "ior-bad", "copy"]])
+        fo = foreigns_of(cls)
+        F = fo[0][1]
+        ops = _sequence_ops(cls, F, DECL, DECLSET)
+        nops = len(ops)
+        for i in range(len(ops)):
+            shards.append((cls, F, ops, i))
+    _SEQ_CTX = dict(shards=shards, L=L, DECLSET=DECLSET, FDKE=FixedDictKeyError)
+    if tier == "quick":
+        results = [_run_shard(i) for i in range(len(shards))]
+    else:
+        import multiprocessing
+
+        with multiprocessing.get_context("fork").Pool(4) as pool:
+            results = pool.map(_run_shard, range(len(shards)), chunksize=1)
+    evals3 = sum(r[0] for r in results)
+    steps3 = sum(r[1] for r in results)
+    seen = set()
+    for (cls, F, ops, i), r in zip(shards, results):
+        if r[2] is not None and cls not in seen:
+            seen.add(cls)
+            rep.violation("opseq-%s" % cls.__name__, {"what": "%s: %s" % (cls.__name__, r[2]["problem"]),
+                                                       "inputs": {"class": CNAME[cls], "other_class": CNAME[F], "ops": r[2]["ops"],
+                                                                  "note": "d, e: instances of the class; f: instance of the other class; all start empty"},
+                                                       "expected": "after every step every live fixed-entry dictionary holds declared keys only; only FixedDictKeyError is raised",
+                                                       "observed": r[2]["observed"]})
+    rep.add_bounded("operation sequences", "exhaustive: all sequences of length %d over %d operations (item assignment, setdefault, update / |= / construction / __setstate__ with dicts, pairs, "
+                    "generators, keywords, positional+keywords, OrderedDict, dict subclass, same-type and other-type fixeddict operands, |, fromkeys, copy, copy.copy, pickle, pop, clear) "
+                    "on three live dictionaries (d, e of the class; f of another fixeddict class), invariant checked on all three after every step; "
+                    "classes State, VideoParameters, CodecFeatures, ParseInfo" % (L, nops),
+                    evals3, True, distinct=evals3, samples=[[o[0] for o in shards[0][2]][:12]], note="%d operation executions" % steps3)
+    _SEQ_CTX = None
 
 
-def _only_ior_explains(cls, seq, declared, FixedDictKeyError):
-    """Explained-by predicate for D5: replaying the sequence with every '|=' step removed leaves no undeclared key."""
-    d = cls()
-    for (name, op) in seq:
-        if name == "ior-bad":
-            continue
-        try:
-            r = op(d)
-            if name == "copy":
-                d = r
-        except FixedDictKeyError:
-            pass
-    return not (set(d.keys()) - set(declared))
+_SEQ_CTX = None
+
+
+def _sequence_ops(cls, F, DECL, DECLSET):
+    """The operation alphabet: each op acts on the heap h = [d, e, f] (d, e: cls; f: the other fixeddict class F)."""
+    T = DECL[cls]
+    good, good2 = T[0], T[-1]
+    common = [k for k in DECL[F] if k in DECLSET[cls]]
+    fonly = [k for k in DECL[F] if k not in DECLSET[cls]][0]
+    fgood = common[0] if common else DECL[F][0]
+
+    def is_fd(x):
+        return isinstance(x, dict) and type(x) in DECLSET
+
+    def assign(i, f):
+        def op(h):
+            h[i] = f(h)
+        return op
+
+    def or_bad(h):
+        r = h[0] | {BOGUS: 1}
+        if is_fd(r):
+            h[0] = r
+
+    def ior_stmt(i, f):
+        def op(h):
+            x = h[i]
+            x |= f(h)
+            h[i] = x
+        return op
+
+    return [
+        ("d[good]=1", lambda h: h[0].__setitem__(good, 1)),
+        ("d[BOGUS]=1", lambda h: h[0].__setitem__(BOGUS, 1)),
+        ("d[key of F only]=1", lambda h: h[0].__setitem__(fonly, 1)),
+        ("d.setdefault(good2,2)", lambda h: h[0].setdefault(good2, 2)),
+        ("d.setdefault(BOGUS,2)", lambda h: h[0].setdefault(BOGUS, 2)),
+        ("d.update({good:3})", lambda h: h[0].update({good: 3})),
+        ("d.update([(good,3),(BOGUS,3)])", lambda h: h[0].update([(good, 3), (BOGUS, 3)])),
+        ("d.update(**{BOGUS:3})", lambda h: h[0].update(**{BOGUS: 3})),
+        ("d.update({good:4},**{BOGUS:4})", lambda h: h[0].update({good: 4}, **{BOGUS: 4})),
+        ("d.update(generator good,BOGUS)", lambda h: h[0].update((k, 5) for k in (good2, BOGUS))),
+        ("d.update(OrderedDict BOGUS,good)", lambda h: h[0].update(collections.OrderedDict([(BOGUS, 6), (good, 6)]))),
+        ("d.update(e)", lambda h: h[0].update(h[1])),
+        ("d.update(f)", lambda h: h[0].update(h[2])),
+        ("d.update(e,**{BOGUS:7})", lambda h: h[0].update(h[1], **{BOGUS: 7})),
+        ("d|={BOGUS:4}", ior_stmt(0, lambda h: {BOGUS: 4})),
+        ("d|=f", ior_stmt(0, lambda h: h[2])),
+        ("d|=e", ior_stmt(0, lambda h: h[1])),
+        ("d|=[(BOGUS,8)]", ior_stmt(0, lambda h: [(BOGUS, 8)])),
+        ("d|=dict-subclass{good,BOGUS}", ior_stmt(0, lambda h: _SubDict([(good, 9), (BOGUS, 9)], [(good, 9), (BOGUS, 9)]))),
+        ("d.__ior__(OrderedDict{BOGUS})", lambda h: h[0].__ior__(collections.OrderedDict([(BOGUS, 9)]))),
+        ("f|=d", ior_stmt(2, lambda h: h[0])),
+        ("f.update(d)", lambda h: h[2].update(h[0])),
+        ("d=cls(d)", assign(0, lambda h: cls(h[0]))),
+        ("d=cls(d,**{BOGUS:1})", assign(0, lambda h: cls(h[0], **{BOGUS: 1}))),
+        ("d=cls(e,**{good:2})", assign(0, lambda h: cls(h[1], **{good: 2}))),
+        ("d=cls(e,**{key of F only:2})", assign(0, lambda h: cls(h[1], **{fonly: 2}))),
+        ("d=cls(f)", assign(0, lambda h: cls(h[2]))),
+        ("d=cls(f,**{good:3})", assign(0, lambda h: cls(h[2], **{good: 3}))),
+        ("d=cls([(good,1),(BOGUS,1)])", assign(0, lambda h: cls([(good, 1), (BOGUS, 1)]))),
+        ("e=d.copy()", assign(1, lambda h: h[0].copy())),
+        ("d=copy.copy(d)", assign(0, lambda h: copy.copy(h[0]))),
+        ("d=pickle.loads(pickle.dumps(d))", assign(0, lambda h: pickle.loads(pickle.dumps(h[0])))),
+        ("d=d|{BOGUS:1} if that is a fixeddict", or_bad),
+        ("d=cls.fromkeys(list(d)+[BOGUS])", assign(0, lambda h: cls.fromkeys(list(h[0]) + [BOGUS]))),
+        ("d.__setstate__({good:5,BOGUS:5})", lambda h: h[0].__setstate__({good: 5, BOGUS: 5})),
+        ("d.__setstate__(f)", lambda h: h[0].__setstate__(h[2])),
+        ("e[good2]=5", lambda h: h[1].__setitem__(good2, 5)),
+        ("f[key of F only]=6", lambda h: h[2].__setitem__(fonly, 6)),
+        ("f[%s]=7" % ("shared key" if common else "first key"), lambda h: h[2].__setitem__(fgood, 7)),
+        ("d.pop(good,None)", lambda h: h[0].pop(good, None)),
+        ("d.clear()", lambda h: h[0].clear()),
+    ]
+
+
+def _run_shard(idx):
+    """All sequences of length L that start with one given operation, on one class.  Returns (sequences, steps, first failure)."""
+    ctx = _SEQ_CTX
+    cls, F, ops, first = ctx["shards"][idx]
+    L, DECLSET, FixedDictKeyError = ctx["L"], ctx["DECLSET"], ctx["FDKE"]
+    want = (cls, cls, F)
+    sup = [DECLSET[c].issuperset for c in want]
+    nseq = nsteps = 0
+    for tail in itertools.product(ops, repeat=L - 1):
+        seq = (ops[first],) + tail
+        h = [cls(), cls(), F()]
+        nseq += 1
+        for si, (name, op) in enumerate(seq):
+            nsteps += 1
+            problem = None
+            try:
+                op(h)
+            except FixedDictKeyError:
+                pass
+            except Exception as e:
+                problem = "an operation raised %s: %s" % (type(e).__name__, str(e)[:100])
+            if problem is None:
+                for j in range(3):
+                    x = h[j]
+                    if type(x) is not want[j]:
+                        problem = "%s is a %s after the step, not a %s" % ("def"[j], type(x).__name__, want[j].__name__)
+                    elif not sup[j](dict.keys(x)):
+                        problem = "%s (%s) holds undeclared keys %r" % ("def"[j], want[j].__name__, sorted(map(repr, set(dict.keys(x)) - DECLSET[want[j]])))
+            if problem is not None:
+                return nseq, nsteps, {"problem": problem, "ops": [n for n, _ in seq[:si + 1]],
+                                      "observed": {"d": repr(dict(h[0])), "e": repr(dict(h[1])), "f": repr(dict(h[2]))}}
+    return nseq, nsteps, None
 
 
 REGISTER = {
@@ -219,13 +871,19 @@ REGISTER = {
         assumptions=[
             "TRUSTED table classifying CPython's dict attributes into key-inserting / not (checked for completeness against dir(dict) each run)",
             "BOUNDED: operation sequences are exhaustive only up to the stated length over the stated operation alphabet; pickle/copy round trips are sampled",
+            "BOUNDED: the call-form matrix enumerates the stated call forms, argument kinds and carry patterns (one or two declared keys, one undeclared key); "
+            "argument kinds whose storage and view differ, the minimal keys()+__getitem__ protocol, setdefault without default and keyword names that collide with "
+            "Python-level parameter names are held to the invariant only (the statement does not fix whether they are accepted)",
+            "calling __init__ again on a live dictionary must reject an undeclared key, but the state it leaves behind is only recorded (the statement speaks of construction)",
         ],
         manifest=dict(
             category="other",
-            technique="reflection over dict's mutators + exhaustive ground evaluation on every fixeddict class; bounded operation sequences; (deductive contracts on the closure bodies: see DESIGN)",
-            text="Every key-inserting entry point of dict (enumerated from the running interpreter, classification complete or checker error) is exercised on every "
-                 "fixed-entry dictionary class of the tree with an undeclared and a declared key; pickle/copy/deepcopy/.copy() round trips incl. hidden entries; "
-                 "all operation sequences up to the stated length on four representative classes.",
+            technique="reflection over dict's mutators + exhaustive ground evaluation of a call-form x argument-kind x carry matrix on every fixeddict class; bounded operation sequences over three live dictionaries; (deductive contracts on the closure bodies: see DESIGN)",
+            text="Every key-inserting entry point of dict (enumerated from the running interpreter, classification complete or checker error) plus __setstate__ and crafted reductions "
+                 "is exercised on every fixed-entry dictionary class of the tree in every call form (no argument, mapping, iterable of pairs, generator, keywords, positional+keywords) "
+                 "with every argument kind (dict, OrderedDict, dict subclass, same fixeddict, other fixeddict, non-dict mapping) carrying declared / undeclared / mixed keys; "
+                 "pickle/copy/deepcopy/.copy() round trips incl. hidden entries and on every dictionary the matrix produces; "
+                 "all operation sequences up to the stated length on four representative classes with the invariant checked after every step on every live dictionary.",
             note="A bounded/evaluation stand-in: 'any sequence of operations' is covered only up to the stated length; the classification table of dict attributes is trusted.",
         ),
     )
